@@ -129,8 +129,13 @@ def run(index, rep, tier):
                   "escape_nexus_token wraps in ' and joins the '-split pieces with ''", "escape_nexus_token no longer doubles embedded single quotes inside a single-quoted token")
         # tokenizer honours the flag: the un-doubling branch exists
         tk = index.function("dendropy.dataio.tokenizer.Tokenizer.__next__")
-        ok = any(isinstance(n, ast.If) and norm(n.test) == "self.escape_quote_by_doubling"
-                 for m in index.methods_of("dendropy.dataio.tokenizer.Tokenizer") for n in ast.walk(m.node))
+        ok = False
+        for m in index.methods_of("dendropy.dataio.tokenizer.Tokenizer"):
+            for n in ast.walk(m.node):
+                if isinstance(n, ast.If):
+                    t_, tb_, fb_ = pos_if(n)
+                    if norm(t_) == "self.escape_quote_by_doubling" and any(isinstance(c, ast.Call) and call_name(c) in ("append", "write") for st in tb_ for c in ast.walk(st)):
+                        ok = True
         rep.check(ok, "R02.2", tk.qualname, "un-doubling branch", fn_where(tk), "Tokenizer.__next__ un-doubles quotes when escape_quote_by_doubling is set",
                   "Tokenizer.__next__ no longer tests escape_quote_by_doubling")
 
@@ -164,29 +169,39 @@ def run(index, rep, tier):
         for tok in sorted(t for t in recognised if t.lower() in ("&r", "&u")):
             rep.check(tok in interpreted, "R02.3", pr.qualname, "rooting token %s interpreted" % tok, fn_where(pr), "recognised token %s is mapped to a rooting state" % tok,
                       "the reader recognises the rooting token %s but _parse_tree_rooting_state does not interpret it" % tok)
-        # polarity: &R -> True, &U -> False
+        # polarity, decided by evaluating the chain (not by its shape): with no rooting directive, &R/&r -> True, &U/&u -> False
         pol = {}
-        for n in ast.walk(pr.node):
-            if isinstance(n, ast.If):
-                toks = [c.comparators[0].value for c in ast.walk(n.test) if isinstance(c, ast.Compare) and norm(c.left) == "rooting_comment" and isinstance(c.comparators[0], ast.Constant)]
-                if toks and n.body and isinstance(n.body[0], ast.Return):
-                    for t in toks:
-                        pol[t] = const_value(n.body[0].value)
-        ok = all(pol.get(t) is (t.lower() == "&r") for t in pol) and len(pol) >= 2
+        for tok in ("&R", "&r", "&U", "&u"):
+            d = Decision(values={"self._rooting": None, "rooting_comment": tok})
+            try:
+                d.run(pr.node.body)
+            except Undecidable as e:
+                raise AnalysisError("R02.3: _parse_tree_rooting_state is not a decidable chain (%s)" % e)
+            pol[tok] = d.result
+        ok = all(pol[t] == ("return", t.lower() == "&r") for t in pol)
         rep.check(ok, "R02.3", pr.qualname, "rooting polarity %s" % pol, fn_where(pr), "&R -> rooted, &U -> unrooted", "the rooting tokens are interpreted with the wrong polarity: %s" % pol)
-        # writer polarity
+        # writer polarity: evaluate the chain that sets the rooting token under the 2 x 2 x 2 cases
+        rootvar = None
+        for n in walk_no_nested(wt.node):
+            if isinstance(n, ast.Assign) and isinstance(n.value, ast.Constant) and isinstance(n.value.value, str) and n.value.value.strip().startswith("[&R"):
+                rootvar = norm(n.targets[0])
+        chain = [n for n in wt.node.body if isinstance(n, ast.If) and rootvar is not None and any(isinstance(a, ast.Assign) and norm(a.targets[0]) == rootvar for a in ast.walk(n))]
+        if rootvar is None or len(chain) != 1:
+            raise AnalysisError("R02.3: the rooting-token chain of NewickWriter._write_tree was not recognised")
         wpol = {}
-        for n in ast.walk(wt.node):
-            if isinstance(n, ast.If):
-                cur = n
-                while isinstance(cur, ast.If):
-                    if cur.body and isinstance(cur.body[0], ast.Assign) and isinstance(cur.body[0].value, ast.Constant) and isinstance(cur.body[0].value.value, str) \
-                            and (cur.body[0].value.value.strip() == "" or cur.body[0].value.value.strip().startswith("[&")):
-                        wpol[norm(cur.test)] = cur.body[0].value.value.strip()
-                    cur = cur.orelse[0] if cur.orelse and isinstance(cur.orelse[0], ast.If) else None
-        ok = wpol.get("tree.is_rooted") == "[&R]" and wpol.get("not tree.is_rooted") == "[&U]" and any(v == "" for k, v in wpol.items() if "undefined" in k or "suppress_rooting" in k)
-        rep.check(ok, "R02.3", wt.qualname, "writer rooting polarity %s" % wpol, fn_where(wt), "rooted trees get [&R], unrooted [&U], undefined/suppressed nothing",
-                  "NewickWriter._write_tree maps rooting states to tokens as %s" % wpol)
+        for undef in (False, True):
+            for supp in (False, True):
+                for rooted in (False, True):
+                    d = Decision(facts={"tree.rooting_state_is_undefined": undef, "self.suppress_rooting": supp, "tree.is_rooted": rooted})
+                    try:
+                        d.run(chain)
+                    except Undecidable as e:
+                        raise AnalysisError("R02.3: the rooting-token chain of NewickWriter._write_tree is not decidable (%s)" % e)
+                    wpol[(undef, supp, rooted)] = (d.env.get(rootvar) or "").strip()
+        want = {k: ("" if (k[0] or k[1]) else ("[&R]" if k[2] else "[&U]")) for k in wpol}
+        bad = {k: v for k, v in wpol.items() if v != want[k]}
+        rep.check(not bad, "R02.3", wt.qualname, "writer rooting polarity %s" % sorted(bad.items()), fn_where(wt, chain[0]), "rooted trees get [&R], unrooted [&U], undefined/suppressed nothing",
+                  "NewickWriter._write_tree writes the rooting token wrongly for (undefined, suppressed, rooted) = %s (expected %s)" % (sorted(bad.items()), sorted((k, want[k]) for k in bad)))
 
     # ---- R02.4
     with rep.section("R02.4"):
